@@ -138,8 +138,9 @@ def Boxes.lastPgEnd : Boxes → Nat
     | .cons _ _ => bs.lastPgEnd
 end
 
-/-- `blockLevelPageName(before, after) != ""` -/
-def nameStop (a b : Box) : Bool := (a.pgEnd != b.pgStart) && (b.pgStart != 0)
+/-- second result of `blockLevelPageName(before, after)`: the page names differ (the new one may be
+    the unnamed page) -/
+def nameStop (a b : Box) : Bool := a.pgEnd != b.pgStart
 
 /-! ### fragments -/
 
@@ -191,6 +192,7 @@ end
 structure NextPage where
   brk : Option Brk := none
   pg : Nat := 0
+  changed : Bool := false   -- PageChanged: `pg` was set by a change of named page (0 = the unnamed page then)
 deriving Repr, DecidableEq, Inhabited
 
 /-! ### the oracle -/
@@ -322,7 +324,7 @@ def finishBlock {γ : Type} (O : Oracle γ) (st : St) (gEntry : γ) (pie : Bool)
   else
     let g3 := O.exit st gEntry r.isSome (!fs.isEmpty) (O.kidsDone r.isSome g')
     let frag := Frag.block st fs
-    let nb' : NextPage := if nb.pg = 0 then { nb with pg := frag.pgEnd } else nb
+    let nb' : NextPage := if nb.pg = 0 && !nb.changed then { nb with pg := frag.pgEnd } else nb
     let eb' : EB Frag := match eb with
       | some (fs', rs) => some (.block st fs', rs)
       | none => none
@@ -334,7 +336,7 @@ def pbOf (prev : Option Box) (c : Box) : Brk :=
   | none => .auto
   | some p => between p c
 
-/-- `blockLevelPageName(lastInFlowChild, child) != ""` -/
+/-- `blockLevelPageName(lastInFlowChild, child)`: the page name changes -/
 def nsOf (prev : Option Box) (c : Box) : Bool :=
   match prev with
   | none => false
@@ -391,7 +393,7 @@ def layKids {γ : Type} (O : Oracle γ) :
     else
       let pb := pbOf prev c
       if prev.isSome && (pb.isForce || nsOf prev c) then
-        .ok .nil (some (.at index .start)) g none { brk := some pb, pg := c.pgStart }
+        .ok .nil (some (.at index .start)) g none { brk := some pb, pg := c.pgStart, changed := nsOf prev c }
       else
         let pie' := pie && prev.isNone
         let skip := if index = i0 then sub else RS.start
@@ -441,7 +443,7 @@ def pageInfo (ltr : Bool) (index : Nat) (s : PState) : PageInfo :=
     | some wantRight => wantRight != s.right
     | none => false
   { index, right := s.right, blank, name := if blank then 0 else s.nb.pg,
-    forced := s.nb.brk.isSome || s.nb.pg != 0 }
+    forced := s.nb.brk.isSome || s.nb.pg != 0 || s.nb.changed }
 
 /-- `initializePageMaker` -/
 def initState (ltr : Bool) (root : Box) : PState :=
